@@ -369,6 +369,20 @@ class Gen:
                  else "%s = (/ %s, %s /)" % ("aVec(1:2)", self.rexpr(1), self.rexpr(1)), "assign"),
                 ("%s = (/ (real(%s), %s = 1, 10) /)" % ("aVec", "iCnt", "iCnt"), "assign"),
                 ("call subOne(*110, %s)" % self.rvar(), "call_alt_return"),
+                ("allocate(real :: dynA(%s))" % self.ivar(), "allocate"),
+                ("allocate(dynA(0:%s), dynB(-1:1))" % self.ivar(), "allocate"),
+                ("stop %s" % self.ch(["3", "'msg'", "77"]), "stop"),
+                ("read 900, %s" % self.rvar(), "read"),
+                ("read *, %s, %s" % (self.rvar(), self.rvar()), "read"),
+                ("%s = 1.0_wp * 2_8 + real(3_int32) - 4.5e0_8" % self.rvar(), "assign"),
+                ("%s = .true._4 .or. .false." % self.ch(NAMES_LOG), "assign"),
+                ("%s = ck_'abc' // 1_'d'" % self.ch(NAMES_CHR), "assign"),
+                ("%s = fUser() + gCalc()" % self.rvar(), "assign"),
+                ("write (*, *) (aVec(iCnt), iCnt = 1, %s, 2)" % self.ivar(), "write"),
+                ("print *, ((bMat(iCnt, jIdx), iCnt = 1, 3), jIdx = 1, 9, 3)", "print"),
+                ("forall (iCnt = 1:nMax:2, aVec(iCnt) > 0.0) aVec(iCnt) = %s" % self.rexpr(1), "forall_stmt"),
+                ("aVec = (/ (real(iCnt), iCnt = 1, 20, 2) /)", "assign"),
+                ("read (5, *) (aVec(iCnt), iCnt = %s, 10, 3)" % self.ivar(), "read"),
                 ("ptrR(1:%s) => aVec" % self.ivar(), "bounds_remapping"),
                 ("ptrR(2:) => cBuf", "bounds_spec"),
                 ("deallocate(dynA, stat = %s)" % self.ivar(), "deallocate"),
@@ -685,6 +699,8 @@ class Gen:
                 self.emit(self.ch(["sequence", "private"]), kind="type_attr_stmt")
             self.emit("real :: fldA", kind="component")
             self.emit("real :: fldB(3)", kind="component")
+            if self.p(0.2):
+                self.emit("character :: cmpS*5, cmpT(2)*3", kind="component")
             if self.p(0.3):
                 self.emit("integer, pointer :: nxt => null()", kind="component")
             if self.std == "f2008" and self.p(0.25):
@@ -739,7 +755,7 @@ class Gen:
             c = self.newcid()
             self.emit("type :: tPar(kp, np)", role="open", kind="derived_type", cid=c)
             self.depth += 1
-            self.emit("integer, kind :: kp = 4", kind="type_param_def")
+            self.emit(self.ch(["integer, kind :: kp = 4", "integer(kind = 4), kind :: kp = 4"]), kind="type_param_def")
             self.emit("integer, len :: np", kind="type_param_def")
             self.emit("real(kind = kp) :: vals(np)", kind="component")
             self.depth -= 1
@@ -778,6 +794,9 @@ class Gen:
             ("real, dimension(:, :), allocatable :: grid2", "decl"),
             ("integer(kind = selected_int_kind(9)) :: bigI", "decl_kind"),
             ("real :: asz(*)", "assumed_size"),
+            ("real :: asB(2:, :)", "assumed_shape"),
+            ("target :: tgA(3), tgB(2, 2)", "target_stmt"),
+            ("character(len = 3) :: cArr(2)*5, cOne*(2)", "char_length"),
             ("real :: asz2(2, 0:*)", "assumed_size"),
             ("character*10 :: cOld", "char_length"),
             ("character :: cLen*5, cLen2*(*)", "char_length"),
@@ -787,6 +806,8 @@ class Gen:
             ("complex, parameter :: cZ = (1.0, -2.0e0)", "complex_literal"),
             ("integer, parameter :: bozK = b'1010' + o'17' + z'1f'", "boz"),
             ("data (aVec(iCnt), iCnt = 1, 5) /5*0.0/", "data_implied_do"),
+            ("data (cBuf(iCnt), iCnt = 1, 9, 2) /5*1.0/", "data_implied_do"),
+            ("data ((bMat(iCnt, jIdx), iCnt = 1, 6, 3), jIdx = 2, 4, 2) /4*2.5/", "data_implied_do"),
             ("data ((bMat(iCnt, jIdx), iCnt = 1, 2), jIdx = 1, 3) /6*1.5/", "data_implied_do"),
             ("data kk, mVal /-1, +2/", "data_signed"),
             ("data zz /-1.5e0/, wRk /+.5/", "data_signed"),
@@ -850,11 +871,15 @@ class Gen:
         if kind == "subroutine":
             args = self.ch(["", "(argA)", "(argA, argB)", "()"])
             pre = self.ch(["", "", "recursive ", "pure "]) if not args == "" else ""
-            self.emit("%ssubroutine %s%s" % (pre, name, args), role="open", kind="subroutine", cid=c)
+            suf = self.ch(["", "", "", " bind(c)", " bind(c, name = 'cSub')"]) if args not in ("",) else ""
+            self.emit("%ssubroutine %s%s%s" % (pre, name, args, suf), role="open", kind="subroutine", cid=c)
         else:
             pre = self.ch(["", "real ", "integer ", "recursive ", "elemental ", "real(wp) ", "character(10) ",
                            "integer(kind=4) ", "real(8) ", "pure real(wp) ", "double precision "])
-            res = " result(resV)" if self.p(0.5) else ""
+            res = self.ch(["", "", " result(resV)", " result(resV)", " result(resV) bind(c)", " bind(c) result(resV)",
+                           " bind(c, name = 'cFun')"])
+            if "elemental" in pre and "bind" in res:
+                res = " result(resV)"
             self.emit("%sfunction %s(argA)%s" % (pre, name, res), role="open", kind="function", cid=c)
         self.depth += 1
         saved = self.unit_kind
@@ -866,7 +891,8 @@ class Gen:
                       else self.ch(["entry altE(argA)", "entry altE(argA) result(resW)"]), kind="entry")
         self.exec_part()
         if self.p(0.3):
-            self.emit("return", kind="return", simple_exec=True)
+            self.emit("return" if kind != "subroutine" or self.p(0.7) else "return %s" % self.ch(["1", "kk + 1"]),
+                      kind="return", simple_exec=True)
         if internal_ok and self.p(0.25):
             self.depth -= 1
             self.emit("contains", role="mid", kind="contains", cid=c)
